@@ -16,7 +16,7 @@ def _x(cpu, tid):
     return ("OHx", i32(cpu, tid) + i64(0))
 
 
-def base_traces(versions):
+def base_traces(versions, for_c19=False):
     """versions: {model: version}.  Returns {name: trace}"""
     V = versions
     out = {}
@@ -70,6 +70,16 @@ def base_traces(versions):
         "loom.b.1/proc.20/thread.21": {"meta": meta(21, 20, "b.1", cpus=[(0, 2)], req=("nodes",), rank=0, nranks=2, app=2),
                                        "events": evs([_x(0, 21), ("DR[", b""), ("DR]", b""), ("OHe", b""), ("OF[", b""), ("OF]", b"")], 102)},
     }
+    if for_c19:
+        # T5 (C19 only, the emulator refuses it until it is sorted): an unordered region whose events, one of them a jumbo event,
+        # belong before the region; the jumbo data is all 0xff so that any mis-sized walk over it decodes absurd sizes
+        out["sortregion"] = {
+            "loom.n0/proc.100/thread.101": {"meta": meta(101, 100, "n0", cpus=[(0, 0)], req=("nosv",)),
+                                            "events": [("OHx", 100, i32(0, 101) + i64(0), None), ("VAr", 103, b"", None), ("VAR", 110, b"", None),
+                                                       ("OU[", 120, b"", None), ("VYc", 104, b"", u32(2) + b"\xff" * 24 + b"\0"),
+                                                       ("VTc", 105, u32(5, 2), None), ("VSh", 106, b"", None), ("OU]", 130, b"", None),
+                                                       ("OHe", 140, b"", None), ("OF[", 143, b"", None), ("OF]", 146, b"", None)]},
+        }
     return out
 
 
